@@ -170,3 +170,9 @@ def strict_doc(d):
         for b in d.bundles:
             out[b.identifier.uri if b.identifier is not None else "<None>"] = strict_bag(b)
     return out
+
+
+def uri_projection_full(o):
+    """URI-level view incl. declarations (used by the non-interference oracles)"""
+    from .world import uri_projection
+    return uri_projection(o)
